@@ -1,6 +1,6 @@
 (* Props_C03.v — property C03: ONLY theorem statements, each closed by [exact] of a lemma from
    C03_Proofs*, followed by Print Assumptions. *)
-From Verif Require Import Base C03_Model C03_Proofs C03_Proofs2 C03_Proofs3.
+From Verif Require Import Base C03_Model C03_Proofs C03_Proofs2 C03_Proofs3 C03_Proofs4 C03_Proofs5.
 Open Scope Z_scope.
 
 (* codec round trip, per kind and composed structurally (pointers, Null wrappers, custom
@@ -35,6 +35,37 @@ Theorem c03_flatten_injective : forall tree,
   /\ NoDup (map fst (dbnames tree)).
 Proof. exact flatten_injective. Qed.
 Print Assumptions c03_flatten_injective.
+
+(* several fields mapped to ONE column (an anonymously embedded struct and a field of the model, the
+   same struct embedded at two depths, two `column:` tags naming one column; any declaration order):
+   for EVERY struct tree the parsed schema (FieldsByDBName, the parser's left fold with replacement)
+   gives the column to the field the specification names - minimal depth, first declared among
+   equals ([owner_of], a right fold) - and lists every column once *)
+Theorem c03_owner_shortest_first : forall tree col,
+  col_lookup (dbnames tree) col = owner_of (fields_of tree) col
+  /\ NoDup (map fst (dbnames tree)).
+Proof. intros tree col. split; [apply owner_shortest_first | apply dbnames_nodup]. Qed.
+Print Assumptions c03_owner_shortest_first.
+
+(* ... where [owner_of] is: a field mapped to the column, strictly shallower than every such field
+   declared before it and at most as deep as every one declared after it; it exists whenever some
+   field maps to the column *)
+Theorem c03_owner_minimal_first : forall fs col,
+  (forall p, owner_of fs col = Some p ->
+     exists l1 l2, fs = l1 ++ (p, col) :: l2
+       /\ (forall q, In (q, col) l1 -> (length p < length q)%nat)
+       /\ (forall q, In (q, col) l2 -> (length p <= length q)%nat))
+  /\ (forall p, In (p, col) fs -> exists q, owner_of fs col = Some q).
+Proof. intros fs col. split; [intros p; apply owner_of_spec | intros p; apply owner_of_total]. Qed.
+Print Assumptions c03_owner_minimal_first.
+
+(* a field the parsed schema gives no column of its own is never the owner of its column: the
+   checker's demand that every OWNER be read back adds nothing to the per-column round trip under
+   the model, and fails exactly when the schema hands a column to another field *)
+Theorem c03_unowned_not_owner : forall tree p col,
+  col_lookup (dbnames tree) col <> Some p -> owner_of (fields_of tree) col <> Some p.
+Proof. exact unowned_not_owner. Qed.
+Print Assumptions c03_unowned_not_owner.
 
 Theorem c03_flatten_prefix : forall nm p kids,
   map snd (flatten (FEmbed nm p kids)) = map (fun c => (p ++ c)%string) (map snd (fields_of kids))
@@ -118,6 +149,21 @@ Theorem c03_record_roundtrip : forall fs now incl id prio lastid r row,
 Proof. exact record_roundtrip_returning. Qed.
 Print Assumptions c03_record_roundtrip.
 
+(* the WHOLE call on the RETURNING path (about [create], the function the checker runs): Create of
+   one struct per record, of a slice / slice of pointers of any length, CreateInBatches with any batch
+   size - every statement of the call, whatever clock reading and AUTOINCREMENT counter it starts
+   from: record i of the call is stored in row i, and reading row i back gives, column by column, the
+   value record i holds in memory after the call *)
+Theorem c03_create_call_roundtrip : forall fs now reversed prio ph o base recs after rows m,
+  Forall wf_fdesc fs -> existsb is_dbdef fs = true -> Forall (wf_rec fs) recs ->
+  match o with OpStruct | OpSlice | OpPtrSlice | OpBatches _ => True | _ => False end ->
+  create fs now true reversed prio ph o base recs = Some (after, rows, m) ->
+  length rows = length after /\
+  forall i, (i < length after)%nat -> forall j d, (j < length fs)%nat ->
+    nth j (read_rec fs (nth i rows [])) GAbsent = norm (fd_kind (nth j fs d)) (nth j (nth i after []) GAbsent).
+Proof. exact create_roundtrip. Qed.
+Print Assumptions c03_create_call_roundtrip.
+
 (* non-vacuity *)
 Example c03_roundtrip_instance :
   wfk (KPtr (KNull (KInt 8))) = true /\ wtb (KPtr (KNull (KInt 8))) (GSome (GSome (GInt (-128)))) = true
@@ -132,3 +178,12 @@ Example c03_returning_instance :
   = Some ([[GInt 8; GStr "a"]; [GInt 10; GStr "b"]; [GInt 11; GStr "c"]],
           [[DInt 8; DText "a"]; [DInt 10; DText "b"]; [DInt 11; DText "c"]], 11).
 Proof. vm_compute. reflexivity. Qed.
+
+(* a model field declared AFTER an anonymously embedded struct takes the column over; a deeper or
+   equally deep later field does not *)
+Example c03_owner_instance :
+  let tree := [FEmbed "Base" "" [FLeaf "ID" "id"; FLeaf "Title" "title"; FLeaf "Note" "note"];
+               FLeaf "Title" "title"; FEmbed "Other" "" [FLeaf "Memo" "note"]]%string in
+  dbnames tree = [("id", ["Base"; "ID"]); ("title", ["Title"]); ("note", ["Base"; "Note"])]%string
+  /\ owner_of (fields_of tree) "title"%string = Some ["Title"%string].
+Proof. vm_compute. split; reflexivity. Qed.
